@@ -382,3 +382,34 @@ func zzParamInt(name string) int {
 	n, _ := strconv.Atoi(zzFx.Params[name])
 	return n
 }
+
+// zzTwin returns a copy of a float64-decoded document in which every number
+// is a json.Number in Go's shortest formatting (what UseNumber would give for
+// canonically spelled input).
+func zzTwin(v interface{}) interface{} {
+	switch x := v.(type) {
+	case float64:
+		return json.Number(strconv.FormatFloat(x, 'g', -1, 64))
+	case map[string]interface{}:
+		m := make(map[string]interface{}, len(x))
+		for k, c := range x {
+			m[k] = zzTwin(c)
+		}
+		return m
+	case []interface{}:
+		a := make([]interface{}, len(x))
+		for i, c := range x {
+			a[i] = zzTwin(c)
+		}
+		return a
+	}
+	return v
+}
+
+// zzRepeat: native replays repeat order-sensitive checks because Go randomises
+// map iteration; the engine explores the orders explicitly instead.
+func zzRepeat() int { return 300 }
+
+// zzIsolated has no native counterpart (engine reachability); its consequence
+// (no interference between calls) is observed by the C19/C05 histories.
+func zzIsolated(f interface{}) bool { return true }
